@@ -199,6 +199,11 @@ func (c01) Gen(r *simrt.Rand, idx int, tier string) *Case {
 		f.Val = ""
 	}
 	c.Args = f.Args()
+	if r.P(0.1) && !hasAccount(c.J, "Equity:Opening") {
+		// closing (and nothing else) creates Equity:Equity
+		c.J.RenameAccount("Equity:Equity", "Equity:Opening")
+		Ctr.Probes["c01.no-equity-equity"]++
+	}
 	c.Scheds = []Sched{RandSched(r)}
 	if g.BusyDay {
 		c.Scheds = append(c.Scheds, RandSched(r), RandSched(r), RandSched(r))
